@@ -168,7 +168,7 @@ def _cases(tier, seed):
     # strided 1-D columns
     for comp in COMPS[:3]:
         for mode in ('rec', 'ospipe', 'cli'):
-            for rows in ([(5,), (4, 3)] if thorough else [(5,)]):
+            for rows in ([(5,), (4, 3), (2, 3, 1, 4, 2)] if thorough else [(5,), (2, 3, 1, 4, 2)]):      # the last: five input files
                 yield dict(kind='strided', rows=list(rows), comp=comp, mode=mode)
 
 
@@ -579,17 +579,21 @@ def run_strided(case, d):
         base = np.frombuffer(raw_bytes(n * 3 * 4, 200 + fi), dtype='<f4').reshape(n, 3)
         v = np.frombuffer(raw_bytes(2 * n * 2, 220 + fi), dtype='>i2')
         cols = {'x': base[:, 0], 'y': base[:, 1], 'z': base[:, 2], 'ev': v[::2], 'whole': base}
+        # multi-dimensional columns that are not stored row-major: the logical (row-major) element order is what a client expects
+        fo = np.asfortranarray(np.frombuffer(raw_bytes(n * 3 * 8, 240 + fi), dtype='<f8').reshape(n, 3))
+        tr = np.frombuffer(raw_bytes(3 * n * 4, 260 + fi), dtype='<i4').reshape(3, n).T
+        cols.update(fort=fo, transp=tr)
         meta = {k: (np.ascontiguousarray(a).tobytes(), a.size, a.dtype.itemsize) for k, a in cols.items()}
         fn = os.path.join(d, f's{fi}.asdf')
         write_file(fn, cols, case['comp'])
         nblocks = len(block_labels(fn))
-        if nblocks != 2:
-            raise RuntimeError(f'harness: expected the 5 views to share 2 blocks, file has {nblocks}')
+        if nblocks != 4:
+            raise RuntimeError(f'harness: expected the 7 views to share 4 blocks, file has {nblocks}')
         fns.append(fn)
         filecols.append(meta)
     mode = case['mode']
     probs, nt = [], []
-    lists = [('x',), ('y',), ('z',), ('ev',), ('whole', 'y'), ('z', 'x', 'ev')]
+    lists = [('x',), ('y',), ('z',), ('ev',), ('whole', 'y'), ('z', 'x', 'ev'), ('fort',), ('transp',), ('transp', 'fort', 'x')]
     for l in lists:
         exc, got, info = call(mode, fns, list(l))
         check_stream(probs, 'strided-column', f"rows={case['rows']} comp={case['comp']} mode={mode} (columns stored as "
